@@ -32,7 +32,7 @@ TABLE = {
    "missed at first (the store was classified monotone); clause \"counter strictly past every learnt row cell\" added"),
  "C24-leave-skips-scope-end": ("C24", ["C24"], "a labelled loop whose body contains a nested BEGIN…END from which LEAVE <label> jumps out",
    "the interpreter's forward Goto no longer replays the ScopeEnd operations it skips: the nested block's variables and handlers stay in scope after the loop",
-   "caught by the existing rule"),
+   "caught by the existing rule C24-O6, at first only through its instance floor (the forward scope walk had disappeared); an explicit walker-missing report was added"),
  "C37-endquery-stale-pid": ("C37", ["C37"], "out-of-order end on one connection: Q1 begun, killed, Q2 begun, then Q1's iterator closed late",
    "ProcessList.EndQuery acts whenever the connection has any registered query instead of only when it is the query being ended: a late EndQuery cancels and un-counts the connection's current query",
    "missed at first; identity clause (end effects only under QueryPid == own pid) added"),
@@ -66,6 +66,24 @@ TABLE = {
  "C36-partitionrows-alias": ("C36", ["C36"], "a reverse primary-key index lookup (ORDER BY pk DESC) followed by secondary-index lookups in any session",
    "memory.(*Table).PartitionRows returns an alias of the stored row slice instead of a copy; IndexedTable.PartitionRows sorts it in place: a read-only query reorders shared table data",
    "missed at first; stored-rows ownership (no in-place mutation of stored rows on read paths) clause added"),
+ "C39-unionwith-shares-table-set": ("C39", ["C39"], "two privilege sources with an entry for the same db.table merged for one account (user + role, or two roles), then a later change of the role graph",
+   "PrivilegeSetDatabase.unionWith stores the other side's PrivilegeSetTable (with its maps) as-is: PrivilegeSet.Copy is no longer deep, merging role privileges writes into stored grants and privileges survive REVOKE",
+   "missed at first; deep-copy / no-aliasing clause for the Copy/unionWith family added"),
+ "C44-setglobal-case": ("C44", ["C44"], "SET GLOBAL with at least one upper-case letter in the variable name",
+   "globalSystemVariables.SetGlobal no longer lower-cases the name: the value is stored under the caller's spelling while every reader uses the lower-case key",
+   "missed at first; key-normalisation discipline for case-folded maps added"),
+ "C09-case-no-else-notnull": ("C09", ["C09"], "a CASE without ELSE whose THEN values are all non-nullable, and a row matching no WHEN arm",
+   "Case.IsNullable reports false for a CASE without ELSE although Eval returns NULL when no arm matches",
+   "missed at first (E1 covered constant-false IsNullable only); field-condition agreement between Eval's literal NULL returns and a computed IsNullable added"),
+ "C25-intdiv-mixed-unsigned": ("C25", ["C25"], "DIV with exactly one UNSIGNED operand and a negative or fractional other operand",
+   "IntDiv.convertLeftRight coerces both operands to uint64 when either is unsigned: negatives wrap, decimals round, silently",
+   "missed at first; coercion-choice clause (an operand is converted to uint64 only under a test of its own type) added"),
+ "C42-triggerexecutor-readonly": ("C42", ["C42"], "a read-only engine and a table with an AFTER trigger whose body is itself read-only",
+   "TriggerExecutor.IsReadOnly consults the trigger body twice and never the wrapped INSERT/UPDATE/DELETE: writes pass the read-only check",
+   "missed at first (R2 accepted any delegation); R2 now requires every executed child to be consulted"),
+ "C11-autocommit-off-after-error": ("C11", ["C11", "C17"], "two sessions: A hits an execution-time error, B commits DML on the same table, A re-queries",
+   "TransactionCommittingIter.Next clears autoCommit on a child error, so Close neither commits nor clears the implicit transaction and the session keeps (and later publishes) its stale snapshot",
+   "missed at first; who-may-write clause for the commit-decision fields added under C17"),
 }
 names = sys.argv[1:] or sorted(TABLE)
 for name in names:
